@@ -1,8 +1,7 @@
 //! Explorer for generated models: C01–C07, C15, C17, C20 (and C16/C19 drivers).
 mod c16;
-mod dynmodel;
+use modelapi::dynmodel;
 mod explorer;
-mod generated;
 mod oracles;
 mod refsem;
 mod theory;
@@ -64,12 +63,12 @@ fn bounds_for(prop: &str, tier: &str, th: &Theory) -> Bounds {
     };
     if th.meta.get("sweep").is_some() {
         // corpus S: many small theories, each with a small deterministic budget
-        b.depth = if thorough { 4 } else { 3 };
+        b.depth = if thorough { m("depth_thorough", 4) } else { m("depth_quick", 3) } as usize;
         b.trans_cap = envu("VERIF_SWEEP_TRANS_CAP", if thorough { 60_000 } else { 6_000 }) as usize;
         b.max_closes = 2;
     }
     if let Ok(d) = std::env::var("VERIF_DEPTH") { b.depth = d.parse().unwrap(); }
-    if prop == "C17" { b.depth += 1; }
+    if prop == "C17" { b.depth += 1; if th.meta.get("sweep").is_none() { b.trans_cap = envu("VERIF_TRANS_CAP", if thorough { 2_000_000 } else { 240_000 }) as usize; } }
     if prop == "C07" {
         // the budget goes into sequences of early exits and resumptions rather than into more elements
         b.extra_new = 0;
@@ -94,7 +93,11 @@ fn main() {
         let thorough = tier == "thorough";
         let entries: Vec<(&dynmodel::Entry, Theory)> = reg.iter().map(|e| (e, Theory::from_json(e.ast_json)))
             .filter(|(e, _)| only.as_ref().map_or(true, |o| o.split(',').any(|x| x == e.name))).collect();
-        let rs: Vec<(String, c16::C16Result)> = entries.par_iter().map(|(e, th)| (th.name.clone(), c16::run_theory(th, e, if thorough { 3 } else { 2 }, envu("VERIF_C16_CAP", if thorough { 600_000 } else { 60_000 }) as usize))).collect();
+        let rs: Vec<(String, c16::C16Result)> = entries.par_iter().map(|(e, th)| (th.name.clone(), {
+            let sweep = th.meta.get("sweep").is_some();
+            let cap = if sweep { envu("VERIF_C16_SWEEP_CAP", if thorough { 100_000 } else { 1_500 }) } else { envu("VERIF_C16_CAP", if thorough { 600_000 } else { 60_000 }) };
+            c16::run_theory(th, e, if thorough && !sweep { 3 } else { 2 }, cap as usize, !thorough && sweep)
+        })).collect();
         let mut violations = Vec::new(); let mut samples = Vec::new(); let mut per = Vec::new();
         let (mut dbs, mut fams, mut nt) = (0u64, 0u64, 0u64);
         let mut capped = false;
